@@ -21,7 +21,7 @@ import sys
 import time
 import traceback
 
-VERIF = '/verif'
+VERIF = os.path.dirname(os.path.dirname(os.path.abspath(__file__)))
 COQ = os.path.join(VERIF, 'coq')
 BUILD = os.path.join(VERIF, 'build')
 REPLAYS = os.path.join(VERIF, 'replays')
